@@ -26,10 +26,12 @@ BOUNDS = {'quick': 'API histories to depth 3 over 28 operations (pair file) / 2 
 def pair_file():
     return Ini([['Tabulation', [['target', 'LAMMPS'], ['nr', '4'], ['cutoff', '2.0']]],
                 ['Pair', [['O-O', 'as.buck 1000.0 0.3 32.0'], ['U-O', 'cbuck ${Variables:A_uo} 0.35'], ['U-U', 'sum(as.bornmayer 850.0 0.35, tf)']]],
-                ['Variables', [['A_uo', '800.0']]],
+                ['Variables', [['A_uo', '800.0'], ['note', 'fitted 2019']]],
                 ['Potential-Form', [['cbuck(r,A,rho)', 'A*exp(-r/rho) + 1.0/r']]],
                 ['Table-Form:tf', [['x', '0 1 2 3'], ['y', '3 2 1 0.5']]],
-                ['Species', [['O.charge', '-2.0']]]])
+                ['Species', [['O.charge', '-2.0']]],
+                # sections the listing must show once each: a table form whose header has a blank before the colon, sections potable does not interpret
+                ['Table-Form : t2', [['xy', '0 1 1 2 2 3 3 4']]], ['Pair:disabled', [['U-O', 'as.zero']]], ['Notes', [['author', 'someone']]]])
 
 
 def eam_file():
@@ -53,8 +55,10 @@ FILES = {'pair': pair_file, 'eam': eam_file, 'eamnp': eam_nopair_file}
 KEYS = {
     # values: one containing ':' and, later, '=' (a placeholder and a '>=' range); one equal to the current EXPANDED value of its item (pins it)
     'pair': [('Pair', 'O-O', ['as.lj 0.2 2.5', 'as.morse 1.8 2.0 0.6', '>0 as.buck 1000.0 0.3 ${Species:O.charge} >=1.5 as.zero']),
-             ('Pair', 'U - O', ['as.lj 0.3 2.2', 'cbuck 800.0 0.35']), ('Variables', 'A_uo', ['900.0']), ('Pair', 'Th-O', ['as.zbl 8 8\n>=0.8 as.buck 1000.0 0.3 32.0', 'as.lj 0.4 2.1']),       # (a value that spans two lines)
-             ('Tabulation', 'nr', ['5']), ('Tabulation', 'dr', ['0.25']), ('Tabulation', 'target', [' LAMMPS ']),      # (blanks around a value, as in 'target :  LAMMPS ') ('Potential-Form', 'cbuck(r, A, rho)', ['A*exp(-r/rho)']),
+             ('Pair', 'U - O', ['as.lj 0.3 2.2', 'cbuck 800.0 0.35']), ('Variables', 'A_uo', ['900.0']), ('Variables', 'note', ['']),       # (an empty value is a value, not a removal)
+             ('Pair', 'Th-O', ['as.zbl 8 8\n>=0.8 as.buck 1000.0 0.3 32.0', 'as.lj 0.4 2.1']),       # (a value that spans two lines)
+             ('Tabulation', 'nr', ['5']), ('Tabulation', 'dr', ['0.25']), ('Tabulation', 'target', [' LAMMPS ']),      # (blanks around a value, as in 'target :  LAMMPS ')
+             ('Potential-Form', 'cbuck(r, A, rho)', ['A*exp(-r/rho)']),
              ('Table-Form:tf', 'y', ['9 8 7 6']), ('Species', 'O.charge', ['-1.5']), ('NewSection', 'k', ['v']), ('Pair', 'U-U', ['as.zero']),
              ('Variables', 'newvar', ['1.5'])],
     'eamnp': [('EAM-Embed', 'U', ['>=0 as.polynomial 0.5 -2.0']), ('EAM-Density', 'O', ['>=0 as.polynomial 1.0 0.5']), ('Species', 'U.lattice_constant', ['5.5']),
@@ -121,6 +125,13 @@ def cases(tier):
                 continue
             ops = [['O', items[i][0], items[i][1], items[i][2][k % 5]] for k, i in enumerate(seq)]
             out.append(dict(route='cli', file='pair', ops=ops, grouped=('split' if sum(seq) % 2 else False), light=True))
+    # several overrides that carry the SAME value text (refining two grids to the same number): none of them may be lost
+    same = [['O', 'Tabulation', 'nr', '5'], ['O', 'Tabulation', 'cutoff', '5'], ['O', 'Species', 'O.charge', '5'], ['O', 'Variables', 'A_uo', '5']]
+    for n in (2, 3, 4):
+        for seq in itertools.permutations(same, n):
+            for grouped in (False, True, 'split'):
+                out.append(dict(route='cli', file='pair', ops=[list(o) for o in seq], grouped=grouped, light=True))
+            out.append(dict(route='api', file='pair', ops=[list(o) for o in seq], light=True))
     # the API accepts any iterable of override tuples
     for fname in FILES:
         for h in hist.histories(alphabet(fname), 2, valid_api):
